@@ -459,6 +459,14 @@ func streamPipe(seed uint64, idx int) caseT {
 		bs := g.r.pick([]string{"[0]", "[:1]", "length(@)", "@[0]", "[0] | @", "not_null(@)"})
 		return caseT{lines: []string{"P " + hexField(as) + " " + hexField(bs) + " " + canonOf(doc)}}
 	}
+	if g.r.chance(5) {
+		// A is null (missing key, null member, out-of-range index, non-matching projection); B navigates and then calls a
+		// function that does not map null to null, or fails on null
+		as := g.r.pick([]string{"nosuchfield", "`null`", "`{\"n\":null}`.n", "`[]`[0]", "`1`[*]", "`{}`.a.b", "nosuchfield.x[2]", "`\"s\"`.a"})
+		bs := g.r.pick([]string{"b.type(@)", "b.not_null(@, 'dflt')", "b.length(@)", "a.b.to_string(@)", "b.to_array(@)", "[0].type(@)", "b.abs(@)", "b.nosuch(@)", "type(@)", "b | type(@)", "b.[type(@)]",
+			"b.{t: type(@)}", "b.c.not_null(@, `1`)", "*.type(@)", "b || type(@)", "b[0].to_string(@)"})
+		return caseT{lines: []string{"P " + hexField(as) + " " + hexField(bs) + " " + canonOf(doc), "S " + hexField(as+" | "+bs) + " " + canonOf(doc)}}
+	}
 	if g.r.chance(6) {
 		// A is a projection that DROPS nulls; B is a projection whose right-hand side does not map null to null
 		as := g.r.pick([]string{"`[{\"a\":1},{\"b\":2},{\"a\":3}]`[*].a", "`[{\"a\":\"x\"},{},{\"a\":null},{\"a\":[]}]`[*].a", "`[[1],[],[null,2]]`[*][0]",
